@@ -73,7 +73,10 @@ type shared18 struct {
 	transforms     []generate.Aff3
 	paths          []string
 	mdPath         *mdicons.Path
-	circ           []mdicons.Circle
+	// mdPathFill has a fill-opacity and no opacity; factors is a shared table of scale factors
+	mdPathFill *mdicons.Path
+	factors    []float32
+	circ       []mdicons.Circle
 	// opts is a shared, read-only option table with spare capacity; tasks pass prefix views of it
 	opts []decode.DecodeOption
 }
@@ -149,6 +152,8 @@ func task18(kind int, in int, sh *shared18, variant uint64) [32]byte {
 		g.SetTransform(sh.transforms...)
 		g.SetPathData(sh.paths[in%len(sh.paths)], 1)
 		m := generate.Concat(sh.transforms...)
+		i := int(variant) % len(sh.factors)
+		m = generate.Concat(m, generate.Scale(sh.factors[i:i+1]...)) // one factor, handed over as a slice of the shared table
 		g.SetEllipticalGradient(1, 2, 3, 0, 0, 4, generate.GradientSpreadNone, sh.stopsUnordered)
 		o, _ := e.Bytes()
 		return sha256.Sum256(append(append([]byte(nil), o...), []byte(fmt.Sprint(m))...))
@@ -156,6 +161,7 @@ func task18(kind int, in int, sh *shared18, variant uint64) [32]byte {
 		d := &rec.Dest{}
 		adjs := map[float32]uint8{}
 		mdicons.ParsePath(d, sh.mdPath, adjs, 24, f32.Vec2{1, 0}, 48, sh.circ)
+		mdicons.ParsePath(d, sh.mdPathFill, adjs, 24, f32.Vec2{}, 48, nil) // fill-opacity only: the fallback reads it, nothing is written back
 		mdicons.ParsePathData(d, "M2 3h4v5H2z", 0, 24, f32.Vec2{}, 48)
 		return hashOps18(d.Ops)
 	case 8:
@@ -213,7 +219,16 @@ func sharedHash18(sh *shared18) [32]byte {
 	for _, b := range sh.inputs {
 		h.Write(b)
 	}
-	h.Write([]byte(fmt.Sprint(*sh.pal, *sh.rawPal, *sh.rawReg, sh.stops, sh.stopsUnordered, sh.transforms, sh.paths, sh.mdPath.D, sh.circ)))
+	h.Write([]byte(fmt.Sprint(*sh.pal, *sh.rawPal, *sh.rawReg, sh.stops, sh.stopsUnordered, sh.transforms, sh.factors[:cap(sh.factors)], sh.paths, sh.mdPath.D, sh.circ)))
+	for _, p := range []*mdicons.Path{sh.mdPath, sh.mdPathFill} {
+		h.Write([]byte(fmt.Sprint(p.D, p.Fill, p.FillOpacity == nil, p.Opacity == nil)))
+		if p.FillOpacity != nil {
+			h.Write([]byte(fmt.Sprint(*p.FillOpacity)))
+		}
+		if p.Opacity != nil {
+			h.Write([]byte(fmt.Sprint(*p.Opacity)))
+		}
+	}
 	var out [32]byte
 	copy(out[:], h.Sum(nil))
 	return out
@@ -290,6 +305,9 @@ func c18Round(c *run.Ctx, idx uint64) {
 	md, _ := gen.PathString(r, false)
 	op := float32(0.54)
 	sh.mdPath = &mdicons.Path{D: md, Opacity: &op}
+	fop := float32(0.38)
+	sh.mdPathFill = &mdicons.Path{D: "M2 3h4v5H2z", FillOpacity: &fop}
+	sh.factors = append(make([]float32, 0, 6), 2, 0.5, 3, 1.5) // a table of scale factors with spare capacity
 	sh.circ = []mdicons.Circle{{Cx: 12, Cy: 12, R: 3}}
 	sh.opts = make([]decode.DecodeOption, 0, 8)
 	sh.opts = append(sh.opts, decode.WithColorAt(2, color.RGBA{9, 8, 7, 0xff}), decode.WithColorAt(3, color.NRGBA{200, 100, 50, 0x80}), decode.WithPalette(pal), decode.WithColorAt(0, color.Gray{0x33}))
